@@ -452,6 +452,14 @@ def r15_3_defaults(ctx, rule: str = 'R15.3') -> List[Ob]:
     f = repo.func('pyspike.generic', 'resolve_keywords')
     fn = _fn(f)
     found = {}
+    kwname = f.node.args.kwarg.arg if f.node.args.kwarg else 'kwargs'
+    for n in ast.walk(f.node):
+        # the same default spelled with dict.get: `X = kwargs.get('X', default)`
+        if isinstance(n, ast.Assign) and len(n.targets) == 1 and isinstance(n.targets[0], ast.Name) and isinstance(n.value, ast.Call) \
+                and isinstance(n.value.func, ast.Attribute) and n.value.func.attr == 'get' and isinstance(n.value.func.value, ast.Name) \
+                and n.value.func.value.id == kwname and len(n.value.args) == 2 and isinstance(n.value.args[0], ast.Constant) \
+                and n.value.args[0].value == n.targets[0].id and isinstance(n.value.args[1], ast.Constant):
+            found[n.targets[0].id] = (True, n.value.args[1].value, n)
     for n in f.node.body:
         if isinstance(n, ast.If) and isinstance(n.test, ast.Compare) and isinstance(n.test.left, ast.Constant) and \
                 isinstance(n.test.ops[0], ast.In) and n.orelse:
